@@ -238,7 +238,13 @@ func runJSONTamper(f lib.Flags, res *lib.Result) {
 			_ = json.Unmarshal(rawB, &probe)
 			format := formatOf(probe.Version)
 			if err != nil {
-				// juno cannot verify this fixture at all (e.g. an unverifiable old block): nothing to tamper
+				if format == "v0132" || format == "v0134" {
+					// a real block of the network, of a format juno verifies completely, is rejected
+					res.Violate(lib.Violation{Sig: "real-network-block-rejected",
+						What:   fmt.Sprintf("fixture %s/%s (%s), a block of the real network with its state update, is rejected at stage %s: %v", name, base, format, stage, err),
+						Replay: map[string]any{"fixture": name + "/" + base, "stage": stage, "error": trunc(err.Error(), 300)}})
+				}
+				// (older fixtures: juno cannot verify some of them at all — nothing to tamper)
 				res.Hit("json-fixture-not-verifiable:" + stage)
 				continue
 			}
